@@ -322,6 +322,45 @@ def _climb_semantics(P, f, rec, cmp_ops):
     return out
 
 
+def adjacency_rule(R, rid, tf2, duals):
+    """a two-character operator is built only behind an equality test between the previously read character and the pending operator's
+    character (two non-constant chars): adjacency is a fact about characters, positions reset at line breaks and skip whitespace"""
+    R.rule(rid, "a two-character operator is built only behind a test that the previously read character is the pending "
+                "operator's character (character-level adjacency; positions reset at line breaks and skip whitespace)")
+    cut2 = set()
+    for c in tf2.calls:
+        ts = c.func.get("res_targs") or c.targs
+        if re.search(r"PartialEq(<.*>)?>::(eq|ne)$", short(c.name)) and ts and any("char" in t_ for t_ in ts[:2]):
+            consty = any(a_["k"] == "const" for a_ in c.args)
+            if consty:
+                continue
+            g_ = PR.bool_guard(tf2, c)
+            if g_:
+                cut2.add((g_[0], g_[1] if short(c.name).endswith("eq") else g_[2]))
+    for sw in sorted(tf2.reach):
+        info = F.switch_info(tf2, sw)
+        if not info or info[0] != "bool":
+            continue
+        for lab in ("0", "otherwise"):
+            pos, os_ = F.bool_edge_polarity(tf2, sw, lab)
+            for o in os_:
+                if o.kind == "binop" and o.extra in ("Eq", "Ne") and (pos == (o.extra == "Eq")):
+                    l_, r_ = o.place["l"], o.place["r"]
+                    if l_.get("ty") == "char" and r_.get("ty") == "char" and l_["k"] != "const" and r_["k"] != "const":
+                        t_ = tf2.blocks[sw]["term"]
+                        tgt = t_["otherwise"] if lab == "otherwise" else [b_ for v_, b_ in t_["targets"] if v_ == "0"][0]
+                        cut2.add((sw, tgt))
+    free2 = tf2.reachable_from(0, avoid_edges=cut2)
+    for i, s_ in duals:
+        if cut2 and i not in free2:
+            R.ok(rid, "dual", "Dual(a, b) only behind `previous character == a`", "%s:%d" % (tf2.file, s_["line"]))
+        else:
+            R.violation(rid, "dual|not-adjacent",
+                        "a two-character operator is built without a test that the previous character read is the operator's first "
+                        "character: characters that are not consecutive in the text (across a line break, or separated by blanks) can be "
+                        "fused, e.g. a `-` ending a line and a `-` starting the next become a comment", ["%s:%d" % (tf2.file, s_["line"])])
+
+
 def run(R):
     R.rule("C13.table", "precedence constants: min(p(::), p([), p(.)) > p(*) = p(/) > p(+) = p(-) > p(comparison) = p(IS) = p(IS NOT) = p(IN) = "
                         "p(NOT IN) > p(AND) > p(OR) >= 0 and every non-operator token maps below 0")
@@ -516,42 +555,7 @@ def run(R):
             R.violation("C13.fuse", "dual|unconstrained",
                         "the tokenizer merges any character following < > ! = - into a two-character operator: `x=-1` becomes the undefined "
                         "operator `=-` and `x - -1` a comment", ["%s:%d" % (tf2.file, s["line"])])
-    # ---- the two characters of a fused operator were consecutive in the text: the merge is behind an equality test between the
-    #      previously read character and the pending operator's character (two non-constant chars), not inferred from positions
-    R.rule("C13.adjacent", "a two-character operator is built only behind a test that the previously read character is the pending "
-                           "operator's character (character-level adjacency; positions reset at line breaks and skip whitespace)")
-    cut2 = set()
-    for c in tf2.calls:
-        ts = c.func.get("res_targs") or c.targs
-        if re.search(r"PartialEq(<.*>)?>::(eq|ne)$", short(c.name)) and ts and any("char" in t_ for t_ in ts[:2]):
-            consty = any(a_["k"] == "const" for a_ in c.args)
-            if consty:
-                continue
-            g_ = PR.bool_guard(tf2, c)
-            if g_:
-                cut2.add((g_[0], g_[1] if short(c.name).endswith("eq") else g_[2]))
-    for sw in sorted(tf2.reach):
-        info = F.switch_info(tf2, sw)
-        if not info or info[0] != "bool":
-            continue
-        for lab in ("0", "otherwise"):
-            pos, os_ = F.bool_edge_polarity(tf2, sw, lab)
-            for o in os_:
-                if o.kind == "binop" and o.extra in ("Eq", "Ne") and (pos == (o.extra == "Eq")):
-                    l_, r_ = o.place["l"], o.place["r"]
-                    if l_.get("ty") == "char" and r_.get("ty") == "char" and l_["k"] != "const" and r_["k"] != "const":
-                        t_ = tf2.blocks[sw]["term"]
-                        tgt = t_["otherwise"] if lab == "otherwise" else [b_ for v_, b_ in t_["targets"] if v_ == "0"][0]
-                        cut2.add((sw, tgt))
-    free2 = tf2.reachable_from(0, avoid_edges=cut2)
-    for i, s_ in duals:
-        if cut2 and i not in free2:
-            R.ok("C13.adjacent", "dual", "Dual(a, b) only behind `previous character == a`", "%s:%d" % (tf2.file, s_["line"]))
-        else:
-            R.violation("C13.adjacent", "dual|not-adjacent",
-                        "a two-character operator is built without a test that the previous character read is the operator's first "
-                        "character: characters that are not consecutive in the text (across a line break, or separated by blanks) can be "
-                        "fused, e.g. a `-` ending a line and a `-` starting the next become a comment", ["%s:%d" % (tf2.file, s_["line"])])
+    adjacency_rule(R, "C13.adjacent", tf2, duals)
     # ---- IN with one element
     et = [(i, s) for i, s in f.stmts() if s["k"] == "assign" and s["rv"]["k"] == "aggr" and s["rv"].get("variant") == "ExpectedTuple"]
     if et:
